@@ -7,9 +7,12 @@
    pushed its routes into the LIVE RIB of its name at parse time, as the code does), `NoFile`.
    Histories are lists of `rop`: reloads and RIB-level operations on one peer (API announce / withdraw /
    flush, generator start, one element sent, session loss, establishment).
-   `pinned` is the tree as it is, `repaired` the tree with both repairs (roll back on every failure path
-   and clear the parser state; write nothing to a RIB before the file is known to be valid),
-   `rollback_only` the tree with the first repair only. *)
+   `pinned` is the tree as it was; `repaired_failure` has the two repairs of the failure paths (roll back on
+   every failure path and clear the parser state; write nothing to a RIB before the file is known to
+   be valid; /repo f8577ca 9c55346 af12ba1); `repaired` also keeps the withdraws owed to a session that
+   has not come up since an earlier reload; `rollback_only` has the first repair only.
+   The model has ONE "session down" state: the code is required (harness) to behave alike in IDLE,
+   ACTIVE, CONNECT, OPENSENT and OPENCONFIRM. *)
 From Coq Require Import ZArith Bool List.
 From ExaV Require Import lib.Amap model.Model_Rib proofs.Proofs_Rib model.Model_Reload proofs.Proofs_Reload.
 Import ListNotations.
@@ -63,15 +66,48 @@ Theorem C17_rib_invariant : forall fx ops n b,
   aget Z.eqb n (ribs (run_r fx ops st0)) = Some b -> Inv (nsys b) /\ (npw b = [] \/ up (nsys b) = false).
 Proof. intros fx ops n b G. exact (AllInv_run fx ops n b G). Qed.
 
+(* ---------------------------------------------------------------- several reloads in a row *)
+
+(* In ANY state between the operations of a history (withdraws may be owed to sessions that have not come
+   up since earlier reloads), a parsed reload changes the value the peer of n is heading to for prefix k
+   exactly by the difference of the two files: reloads compose, whatever the number of reloads before
+   the session establishes. *)
+Theorem C17_reload_composes : forall fx s cfg n c k,
+  fix_chain fx = true -> Steady s -> aget Z.eqb n cfg = Some c ->
+  exists b, aget Z.eqb n (ribs (fst (reload fx s (Parsed cfg)))) = Some b /\
+    goal b k = diffed (prev_routes s n) (nroutes c) k (goal (get_nb n (ribs s)) k).
+Proof. exact reload_composes. Qed.
+
+Theorem C17_steady_after_reload : forall fx s cfg, Steady s -> Steady (fst (reload fx s (Parsed cfg))).
+Proof. exact Steady_reload_parsed. Qed.
+
+Theorem C17_steady_after_ribop : forall fx s n o, Steady s -> Steady (rstep fx s (RibOp n o)).
+Proof. exact Steady_ribop. Qed.
+
+(* and that value is what the peer holds once its session is up and its RIB drained, in every history *)
+Theorem C17_peer_reaches_goal : forall fx ops n b k,
+  aget Z.eqb n (ribs (run_r fx ops st0)) = Some b -> up (nsys b) = true -> drained (r (nsys b)) ->
+  aget Z.eqb k (peer (nsys b)) = goal b k.
+Proof. exact peer_reaches_goal. Qed.
+
+(* refuted on the tree without the third repair: old {1,2} -> (session parameter changed) {1} -> {1,3}
+   with the session down: prefix 2 is still what the peer is heading to *)
+Theorem C17_reload_composes_refuted_without_chain :
+  exists s cfg n c k, Steady s /\ aget Z.eqb n cfg = Some c /\
+    forall b, aget Z.eqb n (ribs (fst (reload repaired_failure s (Parsed cfg)))) = Some b ->
+      goal b k <> diffed (prev_routes s n) (nroutes c) k (goal (get_nb n (ribs s)) k).
+Proof. exact reload_composes_refuted_without_chain. Qed.
+
 (* ---------------------------------------------------------------- failed reload *)
 
 (* the repaired tree: whatever the failure (missing file, syntax error, exception in a value parser, at
    any line, after any number of neighbors were parsed) the whole state - configuration, parser state,
    peers, every RIB (queue, cache, live generator), every session and peer table - is EXACTLY as
    before and the call returns False *)
-Theorem C17_failure_is_noop : forall s o,
-  stale s = [] -> not_parsed o -> reload repaired s o = (s, false).
-Proof. exact failure_noop_repaired. Qed.
+Theorem C17_failure_is_noop : forall fx s o,
+  fix_rollback fx = true -> fix_defer fx = true ->
+  stale s = [] -> not_parsed o -> reload fx s o = (s, false).
+Proof. exact failure_noop_fx. Qed.
 
 Theorem C17_failure_leaves_no_parser_state : forall fx s o,
   fix_rollback fx = true -> stale (fst (reload fx s o)) = [].
@@ -149,3 +185,8 @@ Print Assumptions C17_failure_is_noop_pinned_refuted_parsed_prefix.
 Print Assumptions C17_failure_is_noop_pinned_partial.
 Print Assumptions C17_failure_syntax_error_pinned_partial.
 Print Assumptions C17_failure_rollback_only.
+Print Assumptions C17_reload_composes.
+Print Assumptions C17_steady_after_reload.
+Print Assumptions C17_steady_after_ribop.
+Print Assumptions C17_peer_reaches_goal.
+Print Assumptions C17_reload_composes_refuted_without_chain.
